@@ -86,6 +86,8 @@ structure Cfg where
   obsRange : Option (XR × XR) := none
   clim : Option Input := none
   climDivide : Bool := false
+  obsField : String := "obs"                -- `-obs FIELD`  (Data(obs_field=…)): the stored field read as the observation
+  fcstField : String := "fcst"              -- `-fcst FIELD` (Data(fcst_field=…)): the stored field read as the forecast
   deriving Repr, Inhabited
 
 structure DataS where
@@ -216,6 +218,63 @@ def propagate (arrs : List Arr3) : List Arr3 :=
 def DataS.fieldArr (D : DataS) (name : String) (i : Nat) : Except String Arr3 := do
   let arrs ← D.loadAll name
   pure ((propagate arrs).getD i [])
+
+/-! ### `-obs FIELD` / `-fcst FIELD`
+
+Stored CDF columns (`p@<t>`), stored quantile columns (`q@<q>`), ensemble members (`e@<k>`), the PIT and other-score
+fields are NAMED fields of an input like "obs" and "fcst": a column of the input's 4-D `threshold_scores` /
+`quantile_scores` / `ensemble` array is its own 3-D array.  (Deriving a CDF value or a quantile from ensemble members
+when the column is not stored is Model/Prob.lean's subject, C08.)
+
+The code resolves the observation / forecast field at request time (`field = self._obs_field`, data.py:459;
+`field = self._fcst_field`, data.py:503) and keeps treating the REQUESTED field as observation / forecast for
+borrowing, `-obsrange` and the climatology.  `loadAllF` mirrors that; `Input.resolved` is the same thing done once, in
+front of everything else: the input in which "obs" names the stored field X and "fcst" the stored field Y
+(Proofs/DataFields.lean: `loadAllF_resolved`, `init_resolved`). -/
+
+/-- the stored field a requested field is loaded from -/
+def Cfg.storedName (cfg : Cfg) (name : String) : String :=
+  if name == "obs" then cfg.obsField else if name == "fcst" then cfg.fcstField else name
+
+/-- can the field stand in for the observation?  The observation path of `_get_score` reads obs, fcst, the PIT and
+other-score fields; a stored CDF / quantile column or an ensemble member is an error exit -/
+def Cfg.obsFieldOK (cfg : Cfg) : Bool :=
+  let kind := cfg.obsField.toList.take 2
+  cfg.obsField == "obs" || !(kind == ['p', '@'] || kind == ['q', '@'] || kind == ['e', '@'])
+
+/-- `_get_score` loading step under `-obs` / `-fcst`, as the code does it: the name is resolved, the borrowing
+path is taken for the requested observation -/
+def DataS.loadAllF (D : DataS) (name : String) : Except String (List Arr3) :=
+  let stored := D.cfg.storedName name
+  let has := fun i => ((D.inputs.getD i default).field? stored).isSome
+  let idx := List.range D.inputs.length
+  if name == "obs" then
+    if idx.any has then
+      if D.cfg.obsFieldOK then
+        .ok (idx.map fun i =>
+          let o := if has i then i else (idx.find? has).getD i
+          D.cutFor o (((D.inputs.getD o default).field? stored).getD []))
+      else .error "Cannot use this field as the observation field"
+    else .error "No files have observations"
+  else if idx.all has then
+    .ok (idx.map fun i => D.cutFor i (((D.inputs.getD i default).field? stored).getD []))
+  else .error "does not contain"
+
+/-- the input read with the stored field `-obs` names as its observation and the stored field `-fcst` names as its
+forecast; every other name is itself (the arrays stored under "obs" / "fcst" are then not reachable, as in the code).
+A field that cannot stand in for the observation leaves the input without observations (error exit). -/
+def Input.resolved (cfg : Cfg) (I : Input) : Input :=
+  if cfg.obsField == "obs" && cfg.fcstField == "fcst" then I
+  else { I with fields :=
+    ((if cfg.obsFieldOK then I.field? cfg.obsField else none).map fun a => ("obs", a)).toList
+    ++ (((I.field? cfg.fcstField).map fun a => ("fcst", a)).toList
+    ++ I.fields.filter fun f => !(f.1 == "obs") && !(f.1 == "fcst")) }
+
+def Cfg.resolved (cfg : Cfg) : Cfg := { cfg with clim := cfg.clim.map (Input.resolved cfg) }
+
+/-- `Data(inputs, …, obs_field=X, fcst_field=Y)` -/
+def Data.initF (scored : List Input) (cfg : Cfg) : Except String DataS :=
+  Data.init (scored.map (Input.resolved cfg)) cfg.resolved
 
 /-! ### slicing (`_apply_axis`) -/
 
